@@ -1,5 +1,5 @@
 (* C13 - Over-long names are cut on a character boundary; over-long icons are dropped. *)
-From Ctap Require Import Base Schema Wire Utf8 Typed Procs Inst Tables Limits WireP TypedP FramingP Utf8P StrsP ObRequestSide FnShapes Shapes ObShapeStrings WellTyped LimitsP Deps ObDeps ObShapeRequest.
+From Ctap Require Import Base Schema Wire Utf8 Typed Procs Inst Tables Limits WireP TypedP FramingP Utf8P StrsP ObRequestSide FnShapes Shapes ObShapeStrings WellTyped Within LimitsP Deps ObDeps ObShapeRequest.
 Local Open Scope string_scope.
 Local Open Scope Z_scope.
 
